@@ -168,6 +168,10 @@ func (s *session) recover() (err error) {
 			return errors.SetFd(err, fd)
 		}
 
+		// A damaged entry may be decoded partially before the damage is
+		// detected; remember the state of rec so that nothing of a skipped
+		// entry (journal, sequence or file numbers) is kept.
+		saved := *rec
 		err = rec.decode(r)
 		if err == nil {
 			// save compact pointers
@@ -182,6 +186,7 @@ func (s *session) recover() (err error) {
 				return
 			}
 			s.logf("manifest error: %v (skipped)", errors.SetFd(err, fd))
+			*rec = saved
 		}
 		rec.resetCompPtrs()
 		rec.resetAddedTables()
